@@ -192,6 +192,7 @@ type netw struct {
 	nprops  map[uint32]int
 	bogus   int
 	seenSig map[string][]byte // "signer/p/k/e" -> bytes of a signature seen on the network
+	sigCache map[string][]byte
 	trace   map[uint32][]nodeObs
 	signed  map[uint32][]mBlk // ground truth: blocks signed by each honest node's key (from its messages)
 	errs    []string
@@ -212,7 +213,7 @@ func newNet(w *world, p Params) (*netw, error) {
 	}
 	nw := &netw{w: w, p: p, pos: map[uint32]int{}, isByz: map[uint32]bool{}, nodes: map[uint32]*vbft.VerifC34Node{},
 		blocks: map[common.Uint256]mBlk{}, hashes: map[mBlk]common.Uint256{}, props: map[string][]byte{}, nprops: map[uint32]int{},
-		seenSig: map[string][]byte{}, trace: map[uint32][]nodeObs{}, signed: map[uint32][]mBlk{}}
+		seenSig: map[string][]byte{}, sigCache: map[string][]byte{}, trace: map[uint32][]nodeObs{}, signed: map[uint32][]mBlk{}}
 	var pubs []keypair.PublicKey
 	for i, idx := range p.Peers {
 		nw.pos[idx] = i
@@ -354,9 +355,14 @@ func (nw *netw) noteSigs(data []byte, m mMsg) {
 }
 
 func (nw *netw) sign(key int, h common.Uint256) []byte {
+	k := fmt.Sprintf("%d/%x", key, h[:])
+	if sg, ok := nw.sigCache[k]; ok {
+		return sg
+	}
 	sg, err := signature.Sign(nw.w.accts[key], h[:])
 	if err != nil {
 		panic(err)
 	}
+	nw.sigCache[k] = sg
 	return sg
 }
